@@ -206,34 +206,68 @@ def run(ctx):
                           instance=f"{b.name}: {t['call']['name']}({'/'.join(b.local_name(k) or '?' for k in sorted(r))}) keyed on the emitting type")
         ctx.floor("R3.4", "context functions using prelude-name helpers", nfun, 7)
     # ---------------- R3.5 ordered-key context is propagated through every nested type
+    def flag_like(t_):
+        """bool, or a local fieldless enum with two variants (`Position { Key, Value }`): the ordered-key context"""
+        if tystr(t_) == "bool":
+            return True
+        a_ = F.adt(ty_adt(t_) or "")
+        return bool(a_ and a_.get("local") and a_["kind"] == "enum" and len(a_["variants"]) == 2 and all(not v["fields"] for v in a_["variants"]))
+
+    def flag_value(x, op):
+        """constant flag value of an operand: True/False for bool, the variant index for the enum form; None if not constant"""
+        cst = dt.resolve_const(x, op)
+        if cst is not None and "bool" in cst:
+            return bool(cst["bool"])
+        if cst is not None and isinstance(cst.get("int"), int) and ty_adt(cst.get("ty") or {}):
+            return cst["int"]
+        r_ = dt.resolve_copy(x, op)
+        if r_[0] == "def" and r_[1][1] != "T" and r_[1][2]["r"].get("agg") == "adt" and not r_[1][2]["r"]["ops"]:
+            return r_[1][2]["r"]["vi"]
+        return None
     kf = [b for b in c.bodies if b.id.startswith("conjure_codegen::context::") and b.kind == "assoc_fn" and any(t["call"].get("id") == b.id for _, t in b.calls())
-          and any(tystr(b.local_ty(k)) == "bool" for k in range(1, b.argc + 1)) and any(dt.resolve_const(b, a) is not None and "DoubleKey" in str(dt.resolve_const(b, a)) for _, t in b.calls() for a in t["args"])]
+          and any(flag_like(b.local_ty(k)) for k in range(1, b.argc + 1)) and any(dt.resolve_const(b, a) is not None and "DoubleKey" in str(dt.resolve_const(b, a)) for _, t in b.calls() for a in t["args"])]
     if len(kf) != 1:
-        kf = [b for b in c.bodies if b.id.startswith("conjure_codegen::context::") and b.name == "rust_type_inner"]
+        kf = [b for b in c.bodies if b.id.startswith("conjure_codegen::context::") and b.name == "rust_type_inner" and any(flag_like(b.local_ty(k)) for k in range(1, b.argc + 1))]
     if len(kf) != 1:
         ctx.violation("R3.5", "conjure_codegen", "anchor|key-context", f"expected one type-rendering function with an ordered-key flag, found {len(kf)}")
     else:
         b = kf[0]
-        kp = [k for k in range(1, b.argc + 1) if tystr(b.local_ty(k)) == "bool"][0]
+        kp = [k for k in range(1, b.argc + 1) if flag_like(b.local_ty(k))][0]
+        # which flag value means "ordered key position": the one under which the DoubleKey spelling is emitted
+        cfg = CFG(b)
+        keyval = None
+        for bb, t in b.calls():
+            if any(dt.resolve_const(b, a) is not None and "DoubleKey" in str(dt.resolve_const(b, a)) for a in t["args"]):
+                for sbb, allowed, allv in dt.edge_conditions(cfg, bb):
+                    atom = dt.switch_atom(b, sbb)
+                    if atom[0] in ("place", "discr") and place_local(atom[1]) == kp and len(allowed) == 1:
+                        v_ = next(iter(allowed))
+                        if v_ is None:
+                            others = [q for q in (0, 1) if q not in {w for w in allv if w is not None}]
+                            v_ = others[0] if len(others) == 1 else None
+                        if v_ is not None:
+                            keyval = bool(v_) if tystr(b.local_ty(kp)) == "bool" else v_
+        if keyval is None:
+            keyval = True if tystr(b.local_ty(kp)) == "bool" else None
+        ctx.check(keyval is not None, "R3.5", b.loc(), "anchor|key-value", f"{b.name}: cannot tell which value of the position flag selects the DoubleKey spelling", nontrivial=False)
         wrappers = {}
         for x in c.bodies:
             if x.id == b.id:
                 continue
             for _, t in x.calls():
                 if t["call"].get("id") == b.id and len(x.blocks) <= 4:
-                    cst = dt.resolve_const(x, t["args"][kp - 1])
-                    if cst is not None and "bool" in cst:
-                        wrappers[x.id] = (x.name, cst["bool"])
+                    fv = flag_value(x, t["args"][kp - 1])
+                    if fv is not None:
+                        wrappers[x.id] = (x.name, fv == keyval)
         cfg = CFG(b)
         tnames = None
         n = 0
         for bb, t in b.calls():
             cid = t["call"].get("id")
             if cid == b.id:
-                cst = dt.resolve_const(b, t["args"][kp - 1])
-                r = dt.resolve_copy(b, t["args"][kp - 1])
-                passes = (cst is not None and cst.get("bool") is True) or Tracer(b).root_locals(t["args"][kp - 1]) == {kp}
-                how = "true" if cst is not None and cst.get("bool") is True else "the incoming flag"
+                fv = flag_value(b, t["args"][kp - 1])
+                passes = (fv is not None and fv == keyval) or (fv is None and Tracer(b).root_locals(t["args"][kp - 1]) == {kp})
+                how = "the key position" if fv is not None and fv == keyval else ("the value position" if fv is not None else "the incoming flag")
             elif cid in wrappers:
                 passes = wrappers[cid][1] is True
                 how = f"{wrappers[cid][0]} (flag = {str(wrappers[cid][1]).lower()})"
